@@ -119,6 +119,7 @@ def run_segment(spec):
         setup_memento(spec["store"])
     mods = import_program(spec["pkgroot"], spec["pkg"], spec["modules"])
     out = []
+    held = {}
     for step in spec["steps"]:
         for mname, src in step.get("cells", []):
             exec_cell(mods[mname], src)
@@ -138,6 +139,9 @@ def run_segment(spec):
                     call = lambda a, fn=fn: fn.partial(a)()  # noqa: E731
                 elif pres == "force_local":
                     call = lambda a, fn=fn: fn.force_local()(a)  # noqa: E731
+                elif pres == "held-clone":
+                    # one force_local() clone is created at the first call and kept across later in-process edits
+                    call = lambda a, fn=fn, key=key: held.setdefault(key, fn.force_local())(a)  # noqa: E731
                 elif pres == "partial+force_local":       # two chained modifiers
                     call = lambda a, fn=fn: fn.partial(a).force_local()()  # noqa: E731
                 elif pres == "ctx+partial":
